@@ -66,6 +66,9 @@ Section Builds.
   Variable finish : nat -> bool.                          (* build -> true: broadcast, false: abandon *)
   Variable pre : nat -> list utxo.                        (* build -> its pre-chosen inputs that are rows of the wallet *)
   Variable start : nat -> bool.                           (* build -> the pre-chosen inputs do not cover the cost *)
+  Variable quits : nat -> nat -> bool.                    (* build, rounds done -> the build is cancelled at this point (waiting for the
+                                                             lock of its next round, or after its last round before it is handed out):
+                                                             the handler of create releases every input (repaired: BaseException) *)
   Variable can_sign : nat -> list utxo -> bool.           (* build, its inputs -> tx.sign succeeds (true for sign=False) *)
 
   Definition step (st : state) (b : nat) : state :=
@@ -89,6 +92,9 @@ Section Builds.
                 else if can_sign b (held B) then mkB PFinish (rnd B) [] [] (held B)
                 else mkB PAbort (rnd B) [] [] (held B)))
     | PLock =>
+      if quits b (rnd B) then
+        mkS (wal st) (lock st) (upd (bs st) b (mkB PAbort (rnd B) [] [] (held B)))
+      else
       if use_lock then
         match lock st with
         | None => mkS (wal st) (Some b) (upd (bs st) b (mkB PRead (rnd B) (snap B) (sel B) (held B)))
@@ -115,6 +121,9 @@ Section Builds.
       mkS (release (map uid (held B)) (wal st)) (lock st)
           (upd (bs st) b (mkB (PDone Failed) (rnd B) [] [] []))
     | PFinish =>
+      if quits b (rnd B) then
+        mkS (wal st) (lock st) (upd (bs st) b (mkB PAbort (rnd B) [] [] (held B)))
+      else
       if finish b then
         mkS (spend (map uid (held B)) (wal st)) (lock st)
             (upd (bs st) b (mkB (PDone Broadcast) (rnd B) [] [] []))
